@@ -80,6 +80,9 @@ func unitCmd(args []string) {
 	}
 	bad := 0
 	for _, k := range keys {
+		if ct := e.Contracts[k]; ct != nil && len(ct.Props) > 0 {
+			e.CurProp = ct.Props[0]
+		}
 		res := e.VerifyUnit(k, *timeout, 8, false, *dump)
 		fmt.Printf("== %s: %d obligations, gen %dms solve %dms\n", res.Unit, len(res.Obls), res.GenMs, res.SolveMs)
 		if res.Error != "" {
@@ -213,6 +216,7 @@ func checkCmd(args []string) int {
 		fmt.Printf("KNOWN-FINDING: %s\n", k)
 	}
 	exit := 0
+	replays := 0
 	replayDir := filepath.Join(verifRoot(), "replays")
 	for _, v := range cr.Violations {
 		path, err := v.WriteReplay(replayDir)
@@ -220,7 +224,10 @@ func checkCmd(args []string) int {
 			fmt.Fprintln(os.Stderr, err)
 		}
 		v.Replayed = "no-driver"
-		if !*noReplay && (v.Status == "sat" || len(v.Model) > 0) {
+		if !*noReplay && replays < 10 {
+			// the driver decides what it can do with the model (some search an input class
+			// named by the obligation instead); the number of replays per run is capped
+			replays++
 			runReplay(*repo, v)
 			v.WriteReplay(replayDir)
 		}
@@ -321,7 +328,8 @@ func replayCmd(args []string) int {
 		fmt.Fprintln(os.Stderr, "usage: govc replay [--repo dir] <replay file>")
 		return 2
 	}
-	data, err := os.ReadFile(fs.Arg(0))
+	abs, _ := filepath.Abs(fs.Arg(0))
+	data, err := os.ReadFile(abs)
 	if err != nil {
 		fmt.Fprintln(os.Stderr, err)
 		return 2
